@@ -249,6 +249,13 @@ impl MonCc {
     }
 }
 
+static RTT_SAMPLES: Mutex<Vec<RttEstimator>> = Mutex::new(Vec::new());
+
+/// RttEstimator values captured from live connections (the type has no public constructor).
+pub fn rtt_samples() -> Vec<RttEstimator> {
+    RTT_SAMPLES.lock().unwrap().clone()
+}
+
 impl Controller for MonCc {
     fn on_sent(&mut self, now: Instant, bytes: u64, last_packet_number: u64) {
         {
@@ -263,6 +270,12 @@ impl Controller for MonCc {
     }
     fn on_ack(&mut self, now: Instant, sent: Instant, bytes: u64, app_limited: bool, rtt: &RttEstimator) {
         self.shared.log.lock().unwrap().on_ack_bytes += bytes;
+        {
+            let mut v = RTT_SAMPLES.lock().unwrap();
+            if v.len() < 512 {
+                v.push(*rtt);
+            }
+        }
         if let Some(i) = &mut self.inner {
             i.on_ack(now, sent, bytes, app_limited, rtt);
         }
